@@ -78,6 +78,8 @@ def _nontrivial_pairs(n):
 
 
 def _verify_refs(b, nm, refs, out, case):
+    from .. import inv
+    inv.check_structure(b)
     den = Den(b, nm)
     for t, u in enumerate(refs):
         if den(u) != t:
@@ -108,7 +110,7 @@ def run_pairs(spec, out):
         for tu, u in enumerate(refs):
             for tv, v in enumerate(refs):
                 r = b.apply(op, u, v)
-                if den(r) != fn(tu, tv, n):
+                if r != refs[fn(tu, tv, n)] or den(r) != fn(tu, tv, n):
                     bad += 1
                     out.fail('binary.wrong_result',
                              dict(base, op=op, u=tu, v=tv),
@@ -145,7 +147,7 @@ def run_ite(spec, out):
                 else:
                     r = b.ite(g, u, v)
                 want = tt.ite(tg, tu, tv, n)
-                if den(r) != want:
+                if r != refs[want] or den(r) != want:
                     out.fail('ite.wrong_result',
                              dict(base, g=tg, u=tu, v=tv, via_apply=via_apply),
                              dict(got=den(r), want=want))
